@@ -51,9 +51,11 @@ func (l *IPFSLog) Len() int {
 }
 
 func (l *IPFSLog) RawHeads() iface.IPFSLogOrderedEntries {
+	verifPoint("lock.r", l)
 	l.lock.RLock()
 	heads := l.heads
 	l.lock.RUnlock()
+	verifPoint("unlock.r", l)
 
 	return heads
 }
@@ -176,6 +178,8 @@ func NewLog(services coreiface.CoreAPI, identity *identityprovider.Identity, opt
 }
 
 func (l *IPFSLog) SetIdentity(identity *identityprovider.Identity) {
+	defer verifPoint("unlock.w", l)
+	verifPoint("lock.w", l)
 	l.lock.Lock()
 	defer l.lock.Unlock()
 
@@ -286,6 +290,8 @@ func getEveryPow2(all iface.IPFSLogOrderedEntries, maxDistance int) []Entry {
 }
 
 func (l *IPFSLog) Get(c cid.Cid) (Entry, bool) {
+	defer verifPoint("unlock.r", l)
+	verifPoint("lock.r", l)
 	l.lock.RLock()
 	defer l.lock.RUnlock()
 
@@ -293,6 +299,8 @@ func (l *IPFSLog) Get(c cid.Cid) (Entry, bool) {
 }
 
 func (l *IPFSLog) Has(c cid.Cid) bool {
+	defer verifPoint("unlock.r", l)
+	verifPoint("lock.r", l)
 	l.lock.RLock()
 	defer l.lock.RUnlock()
 
@@ -305,6 +313,8 @@ func (l *IPFSLog) Has(c cid.Cid) bool {
 //
 // payload is the data that will be in the Entry
 func (l *IPFSLog) Append(ctx context.Context, payload []byte, opts *AppendOptions) (iface.IPFSLogEntry, error) {
+	defer verifPoint("unlock.w", l)
+	verifPoint("lock.w", l)
 	l.lock.Lock()
 	defer l.lock.Unlock()
 
@@ -390,6 +400,7 @@ func (l *IPFSLog) Append(ctx context.Context, payload []byte, opts *AppendOption
 		return nil, errmsg.ErrLogAppendDenied.Wrap(err)
 	}
 
+	verifPoint("append.beforeCommit", l)
 	l.Entries.Set(e.GetHash().String(), e)
 
 	for _, nextEntryCid := range next {
@@ -431,6 +442,7 @@ func (l *IPFSLog) Iterator(options *IteratorOptions, output chan<- iface.IPFSLog
 		amount = *options.Amount
 	}
 
+	verifPoint("lock.r", l)
 	l.lock.RLock()
 	start := l.sortedHeads(l.heads.Slice()).Slice()
 
@@ -441,6 +453,7 @@ func (l *IPFSLog) Iterator(options *IteratorOptions, output chan<- iface.IPFSLog
 			e, ok := l.Entries.Get(c.String())
 			if !ok {
 				l.lock.RUnlock()
+				verifPoint("unlock.r", l)
 				return errmsg.ErrFilterLTENotFound
 			}
 			start = append(start, e)
@@ -450,6 +463,7 @@ func (l *IPFSLog) Iterator(options *IteratorOptions, output chan<- iface.IPFSLog
 			e, ok := l.Entries.Get(c.String())
 			if !ok {
 				l.lock.RUnlock()
+				verifPoint("unlock.r", l)
 				return errmsg.ErrFilterLTNotFound
 			}
 
@@ -458,6 +472,7 @@ func (l *IPFSLog) Iterator(options *IteratorOptions, output chan<- iface.IPFSLog
 				e, ok := l.Entries.Get(n.String())
 				if !ok {
 					l.lock.RUnlock()
+					verifPoint("unlock.r", l)
 					return errmsg.ErrFilterLTNotFound
 				}
 				start = append(start, e)
@@ -467,6 +482,7 @@ func (l *IPFSLog) Iterator(options *IteratorOptions, output chan<- iface.IPFSLog
 
 	if amount == 0 {
 		l.lock.RUnlock()
+		verifPoint("unlock.r", l)
 		close(output)
 		return nil
 	}
@@ -485,6 +501,7 @@ func (l *IPFSLog) Iterator(options *IteratorOptions, output chan<- iface.IPFSLog
 
 	entriesMap, err := l.traverse(entry.NewOrderedMapFromEntries(start), count, endHash)
 	l.lock.RUnlock()
+	verifPoint("unlock.r", l)
 	if err != nil {
 		return errmsg.ErrLogTraverseFailed.Wrap(err)
 	}
@@ -531,9 +548,12 @@ func (l *IPFSLog) Join(otherLog iface.IPFSLog, size int) (iface.IPFSLog, error) 
 		return l, nil
 	}
 
+	defer verifPoint("unlock.w", l)
+	verifPoint("lock.w", l)
 	l.lock.Lock()
 	defer l.lock.Unlock()
 
+	verifPoint("join.locked", l)
 	newItems := difference(otherLog.GetEntries(), otherLog.RawHeads().Slice(), l)
 
 	wg := &sync.WaitGroup{}
@@ -568,6 +588,7 @@ func (l *IPFSLog) Join(otherLog iface.IPFSLog, size int) (iface.IPFSLog, error) 
 		return nil, errmsg.ErrLogJoinFailed.Wrap(err)
 	}
 
+	verifPoint("join.afterValidate", l)
 	for _, k := range newItems.Keys() {
 		e := newItems.UnsafeGet(k)
 		for _, next := range e.GetNext() {
@@ -585,6 +606,7 @@ func (l *IPFSLog) Join(otherLog iface.IPFSLog, size int) (iface.IPFSLog, error) 
 		}
 	}
 
+	verifPoint("join.beforeHeads", l)
 	mergedHeads := entry.FindHeads(l.heads.Merge(otherLog.RawHeads()))
 
 	for idx, e := range mergedHeads {
@@ -701,6 +723,8 @@ func (l *IPFSLog) ToString(payloadMapper func(iface.IPFSLogEntry) string) string
 
 // ToSnapshot exports a Snapshot-able version of the log
 func (l *IPFSLog) ToSnapshot() *Snapshot {
+	defer verifPoint("unlock.r", l)
+	verifPoint("lock.r", l)
 	l.lock.RLock()
 	defer l.lock.RUnlock()
 
@@ -940,6 +964,8 @@ func NewFromEntry(ctx context.Context, services coreiface.CoreAPI, identity *ide
 //
 // The values are in linearized order according to their Lamport clocks
 func (l *IPFSLog) Values() iface.IPFSLogOrderedEntries {
+	defer verifPoint("unlock.r", l)
+	verifPoint("lock.r", l)
 	l.lock.RLock()
 	defer l.lock.RUnlock()
 
@@ -962,9 +988,11 @@ func (l *IPFSLog) values() iface.IPFSLogOrderedEntries {
 
 // ToJSON Returns a log in a JSON serializable structure
 func (l *IPFSLog) ToJSONLog() *iface.JSONLog {
+	verifPoint("lock.r", l)
 	l.lock.RLock()
 	heads := l.heads
 	l.lock.RUnlock()
+	verifPoint("unlock.r", l)
 
 	stack := heads.Slice()
 	sorting.Sort(l.SortFn, stack, true)
@@ -985,6 +1013,8 @@ func (l *IPFSLog) GetID() string {
 }
 
 func (l *IPFSLog) GetEntries() iface.IPFSLogOrderedEntries {
+	defer verifPoint("unlock.r", l)
+	verifPoint("lock.r", l)
 	l.lock.RLock()
 	defer l.lock.RUnlock()
 
@@ -995,9 +1025,11 @@ func (l *IPFSLog) GetEntries() iface.IPFSLogOrderedEntries {
 //
 // Heads are the entries that are not referenced by other entries in the log
 func (l *IPFSLog) Heads() iface.IPFSLogOrderedEntries {
+	verifPoint("lock.r", l)
 	l.lock.RLock()
 	heads := l.heads.Slice()
 	l.lock.RUnlock()
+	verifPoint("unlock.r", l)
 
 	return l.sortedHeads(heads)
 }
